@@ -319,6 +319,19 @@ CLAIMED["C33"] = dict(
         "malformed gzip response body crashed all four read helpers). " + TRUST,
    design="DESIGN.md §4 C33")
 
+CLAIMED["C40"] = dict(
+   text="Proof-level guard obligations on the real fan-out code of the volume server that receives a write or delete (store, HTTP and the goroutine fan-out abstracted): "
+        "ReplicatedWrite / ReplicatedDelete look the other locations up first (a failed lookup fails the request before anything is written), apply the operation "
+        "locally with the request's volume id and needle, forward only after a successful local operation, hand exactly the looked-up locations to the fan-out, and "
+        "report success only if the fan-out succeeded (a failed replica delete also reports size 0); getWritableRemoteReplications never lists the server itself and "
+        "refuses a volume whose known locations are fewer than its copy count; the per-replica request (ReplicatedWrite$1 / ReplicatedDelete$1) is marked type=replicate, "
+        "carries the needle's TTL, its last-modified time exactly when it has one (decimal), the chunk-manifest flag exactly when set, the needle's own data slice, its "
+        "compression flag, the rebuilt pair map and the caller's token, and is never encrypted; the delete goes to the same path on the replica with the caller's token.",
+   note="Assumed (trusted): distributedOperation (goroutines and a channel: calls the closure once per location and returns nil exactly when all returned nil) and "
+        "DistributedOperationResult.Error. Not decided: that the replica decodes the request into the same needle (name and mime strings handed to UploadData, the "
+        "receiving handler's parsing), the completeness direction of the location list (every non-self location is included), concurrent writers. " + TRUST,
+   design="DESIGN.md §4 C40")
+
 NA = {
  "C03":"crash-point property over byte-level truncation of two persistent files; no per-function contract within reach decides it (DESIGN §4 C03)",
  "C10":"needs inductive tree predicates and cardinality reasoning over interface-typed nodes in pointer maps with randomised picking (DESIGN §4 C10)",
@@ -330,7 +343,6 @@ NA = {
  "C29":"containment depends on path normalisation in gorilla/mux, net/url, filepath and the filer; textual prefix contracts would be vacuous",
  "C38":"a schedule (linearizability) property; the generator is sequential",
  "C39":"unbounded tree of pointer maps with recursive deletion; needs inductive heap predicates",
- "C40":"relation between the states of two processes connected by HTTP fan-out",
 }
 
 ALL = ["C%02d" % i for i in range(1, 41)]
